@@ -192,3 +192,63 @@ func (l *failingListener) Accept() (net.Conn, error) {
 		return nil, errSymClosed
 	}
 }
+
+// AddPeer racing Close: whichever way the race goes, nothing of the added peer survives Close + Serve's return
+func Verif_C10_addpeer_races_close() { srvAddRacesClose() }
+
+// the registry half of the same race (C20: consistent under any concurrency, a peer added while serving starts and is stopped as in C10)
+func Verif_C20_addpeer_races_close() { srvAddRacesClose() }
+
+func srvAddRacesClose() {
+	verifRaceDetect(true)
+	d := 2
+	if verifTier() >= 1 {
+		d = 3
+	}
+	verifNote("Server with one listener and one active peer with an Established session; Server.Close is called while a second goroutine calls AddPeer for a second (active or passive, symbolic) peer: all schedules with at most 2 (quick) / 3 (thorough) delays (sleep-set reduced); happens-before race detection; after Close, Serve and AddPeer have returned: AddPeer succeeded and the registry holds the peer, every connection dialled for either peer is closed, no goroutine is left and no plugin callback starts any more")
+	e := newSrvEnv()
+	verifDial.outcomes = []dialOutcome{dialOK}
+	e.pl.yieldInCallbacks = true
+	cfg := PeerConfig{RemoteAddress: e.remote, LocalAS: 65000, RemoteAS: 65001}
+	verifAssert("addpeer-before-serve", e.s.AddPeer(cfg, e.pl) == nil)
+	e.serve()
+	verifAssert("peer-started-and-dialled", len(e.outConns) == 1)
+	if len(e.outConns) != 1 {
+		return
+	}
+	sess := e.outConns[0]
+	e.establish(sess)
+	verifAssert("session-established", e.pl.nEstab == 1)
+	second := netip.AddrFrom4([4]byte{192, 0, 2, 2})
+	cfg2 := PeerConfig{RemoteAddress: second, LocalAS: 65000, RemoteAS: 65002}
+	pl2 := newMonPlugin()
+	pl2.yieldInCallbacks = true
+	var opts []PeerOption
+	if verifChoose("second-passive", 2) == 1 {
+		opts = append(opts, WithPassive())
+	}
+	verifDelayBound(d)
+	addDone := make(chan error, 1)
+	go func() { addDone <- e.s.AddPeer(cfg2, pl2, opts...) }()
+	e.s.Close()
+	verifAssert("onclose-delivered-by-return-of-close", e.pl.nClose == 1 && e.pl.active == 0)
+	verifAssert("session-ceased-and-closed", sess.closed && sess.lastIsCease())
+	err := <-e.serveErr
+	verifAssert("serve-returns-errserverclosed", err == ErrServerClosed)
+	aerr := <-addDone
+	verifAssert("racing-addpeer-succeeds", aerr == nil)
+	ev, ev2 := len(e.pl.events), len(pl2.events)
+	verifQuiesce()
+	_, gerr := e.s.GetPeer(second)
+	verifAssert("racing-addpeer-registered", gerr == nil)
+	verifAssert("registry-has-both", len(e.s.ListPeers()) == 2)
+	for _, c := range e.outConns {
+		verifAssert("every-dialled-connection-closed", c.closed)
+	}
+	verifAssert("no-callback-after-close-and-addpeer-return", len(e.pl.events) == ev && len(pl2.events) == ev2)
+	verifAssert("added-peer-no-session", pl2.nEstab == 0 && pl2.active == 0)
+	verifAssert("no-goroutine-left", verifGoroutines() == 0)
+	verifAssert("serve-after-close", e.s.Serve(nil) == ErrServerClosed)
+	verifCoverIf("added-peer-was-started", len(e.outConns) == 2)
+	verifCoverIf("added-peer-not-started", len(e.outConns) == 1)
+}
